@@ -141,7 +141,7 @@ package js
 //@   ensures[F,C06,local] @hex: result == HexadecimalToken ==> old(l.r.buf[l.r.pos]) == '0' && (l.r.buf[old(l.r.pos)+1] == 'x' || l.r.buf[old(l.r.pos)+1] == 'X') && isHexC(l.r.buf[old(l.r.pos)+2]) && l.r.pos == hexBody(l.r.buf, old(l.r.pos)+2) + ite(l.r.buf[hexBody(l.r.buf, old(l.r.pos)+2)] == 'n', 1, 0)
 //@   ensures[F,C06,local] @binary: result == BinaryToken ==> old(l.r.buf[l.r.pos]) == '0' && (l.r.buf[old(l.r.pos)+1] == 'b' || l.r.buf[old(l.r.pos)+1] == 'B') && l.r.pos == binBody(l.r.buf, old(l.r.pos)+2) + ite(l.r.buf[binBody(l.r.buf, old(l.r.pos)+2)] == 'n', 1, 0) && (l.r.buf[old(l.r.pos)+2] == '0' || l.r.buf[old(l.r.pos)+2] == '1')
 //@   ensures[F,C06,local] @octal: result == OctalToken ==> old(l.r.buf[l.r.pos]) == '0' && (l.r.buf[old(l.r.pos)+1] == 'o' || l.r.buf[old(l.r.pos)+1] == 'O') && l.r.pos == octBody(l.r.buf, old(l.r.pos)+2) + ite(l.r.buf[octBody(l.r.buf, old(l.r.pos)+2)] == 'n', 1, 0) && '0' <= l.r.buf[old(l.r.pos)+2] && l.r.buf[old(l.r.pos)+2] <= '7'
-//@   ensures[F,C06,local] @decimal: result == DecimalToken ==> (l.r.buf[jI1(l.r.buf, old(l.r.pos))] == '.' || jHasExp(l.r.buf, old(l.r.pos))) && l.r.pos == ite(jHasExp(l.r.buf, old(l.r.pos)), decBody(l.r.buf, jExpS(l.r.buf, old(l.r.pos))), jI2(l.r.buf, old(l.r.pos)))
+//@   ensures[F,C06,local,perpath] @decimal: result == DecimalToken ==> (l.r.buf[jI1(l.r.buf, old(l.r.pos))] == '.' || jHasExp(l.r.buf, old(l.r.pos))) && l.r.pos == ite(jHasExp(l.r.buf, old(l.r.pos)), decBody(l.r.buf, jExpS(l.r.buf, old(l.r.pos))), jI2(l.r.buf, old(l.r.pos)))
 //@   ensures[F,C06,local] @integer: result == IntegerToken && old(l.r.buf[l.r.pos]) != '0' ==> l.r.buf[jI1(l.r.buf, old(l.r.pos))] != '.' && l.r.pos == jI1(l.r.buf, old(l.r.pos)) + ite(l.r.buf[jI1(l.r.buf, old(l.r.pos))] == 'n', 1, 0)
 //@   loop 1 invariant[F] hexBody(l.r.buf, l.r.pos) == hexBody(l.r.buf, old(l.r.pos)+2) && isHexC(l.r.buf[old(l.r.pos)+2]) && l.r.pos > old(l.r.pos)+2
 //@   loop 2 invariant[F] binBody(l.r.buf, l.r.pos) == binBody(l.r.buf, old(l.r.pos)+2) && l.r.pos > old(l.r.pos)+2 && (l.r.buf[old(l.r.pos)+2] == '0' || l.r.buf[old(l.r.pos)+2] == '1')
